@@ -494,15 +494,17 @@ func (bc *BlockChain) insert(block *types.Block) {
 	// If the block is on a side chain or an unknown one, force other heads onto it too
 	updateHeads := GetCanonicalHash(bc.db, block.NumberU64()) != block.Hash()
 
+	// The number index and the head pointers are written in one batch: a crash or a failed write must
+	// not leave a head whose number index names (part of) another branch.
+	batch := bc.db.NewBatch()
+
 	// Add the block to the canonical chain number scheme and mark as the head
-	if err := WriteCanonicalHash(bc.db, block.Hash(), block.NumberU64()); err != nil {
+	if err := WriteCanonicalHash(batch, block.Hash(), block.NumberU64()); err != nil {
 		log.Crit("Failed to insert block number", "err", err)
 	}
-	if err := WriteHeadBlockHash(bc.db, block.Hash()); err != nil {
+	if err := WriteHeadBlockHash(batch, block.Hash()); err != nil {
 		log.Crit("Failed to insert head block hash", "err", err)
 	}
-	bc.currentBlock.Store(block)
-
 	// If the block is better than our head or is on a different chain, force update heads
 	if updateHeads {
 		// The header chain may have run ahead on another branch: drop its number assignments above
@@ -511,7 +513,7 @@ func (bc *BlockChain) insert(block *types.Block) {
 			if GetCanonicalHash(bc.db, i) == (common.Hash{}) {
 				break
 			}
-			DeleteCanonicalHash(bc.db, i)
+			DeleteCanonicalHash(batch, i)
 		}
 		// ... and re-point the ones below that still name that other branch
 		for hash, number := block.ParentHash(), block.NumberU64(); number > 1; {
@@ -519,18 +521,26 @@ func (bc *BlockChain) insert(block *types.Block) {
 			if GetCanonicalHash(bc.db, number) == hash {
 				break
 			}
-			WriteCanonicalHash(bc.db, hash, number)
+			WriteCanonicalHash(batch, hash, number)
 			header := bc.GetHeader(hash, number)
 			if header == nil {
 				break
 			}
 			hash = header.ParentHash
 		}
-		bc.hc.SetCurrentHeader(block.Header())
-
-		if err := WriteHeadFastBlockHash(bc.db, block.Hash()); err != nil {
+		if err := WriteHeadHeaderHash(batch, block.Hash()); err != nil {
+			log.Crit("Failed to insert head header hash", "err", err)
+		}
+		if err := WriteHeadFastBlockHash(batch, block.Hash()); err != nil {
 			log.Crit("Failed to insert head fast block hash", "err", err)
 		}
+	}
+	if err := batch.Write(); err != nil {
+		log.Crit("Failed to write head block index", "err", err)
+	}
+	bc.currentBlock.Store(block)
+	if updateHeads {
+		bc.hc.SetCurrentHeader(block.Header())
 		bc.currentFastBlock.Store(block)
 	}
 }
